@@ -21,7 +21,7 @@ INFO = {
     'trusted': ['crosshair-tool 0.0.110', 'z3', 'CPython 3.12.1 re'],
 }
 
-DN = {'': 'none', ',': 'comma', ';': 'semi', '\t': 'tab', '|': 'pipe', ' ': 'space', '::': 'dcolon', '§': 'sect'}
+DN = {':=)': 'smiley', '': 'none', ',': 'comma', ';': 'semi', '\t': 'tab', '|': 'pipe', ' ': 'space', '::': 'dcolon', '§': 'sect'}
 
 PRED_SRC = '''
 def representable(T, dlm, policy):
@@ -36,6 +36,8 @@ def representable(T, dlm, policy):
                 return False
             if policy == 'simple' and not no_overlap(f, dlm):
                 return False
+            if policy in ('quoted', 'quoted_rfc') and len(dlm) > 1 and chr(34) not in f and dlm not in f and not no_overlap(f, dlm):
+                return False      # an unquoted field may not end / start with a proper prefix / suffix of a multi-character delimiter
             if policy == 'whitespace' and (f == '' or ' ' in f):
                 return False
         if policy == 'monocolumn' and len(r) != 1:
@@ -65,7 +67,7 @@ exec(PRED_SRC)
 def selfcheck():
     """The explicit predicate agrees with the property's definition (reference pair round-trips) on a small alphabet, exhaustively."""
     from vf.refmodel import csvref
-    for dlm, policy in ((',', 'quoted'), (',', 'quoted_rfc'), (',', 'simple'), ('::', 'simple'), (' ', 'whitespace'), ('', 'monocolumn')):
+    for dlm, policy in ((',', 'quoted'), (',', 'quoted_rfc'), (',', 'simple'), ('::', 'simple'), ('::', 'quoted'), (' ', 'whitespace'), ('', 'monocolumn')):
         alpha = ['a', '"', ' ', '\n', '\r'] + ([dlm[0]] if dlm else [','])
         fields = [''.join(t) for L in range(0, 3) for t in itertools.product(alpha, repeat=L)]
         tables = [[[f]] for f in fields] + [[[f, g]] for f in fields[:16] for g in fields[:16]] + [[[f], [g]] for f in fields[:12] for g in fields[:12]]
@@ -95,6 +97,8 @@ def _kernel_obl(dlm, policy, lens, timeout):
         pre += ['%s != 10 and %s != 13' % (n, n) for n, _t in params]
     if not params:
         params, pre = [('dummy', 'int')], ['dummy == 0']
+    if len(dlm) > 1:
+        pre.append('representable([[%s]], DLM, POLICY)' % ', '.join(exprs))   # no partial overlap of an unquoted field with the delimiter
     q = 'rfc_quote_field' if policy == 'quoted_rfc' else 'quote_field'
     body = indent('''
 fields = [%s]
@@ -102,7 +106,7 @@ line = DLM.join([csv_utils.%s(f, DLM) for f in fields])
 got = csv_utils.smart_split(line, DLM, POLICY, False)
 return (got, (fields, False))
 ''' % (', '.join(exprs), q))
-    src = harness('DLM = %r\nPOLICY = %r\n' % (dlm, policy), params, pre, body)
+    src = harness('DLM = %r\nPOLICY = %r\n' % (dlm, policy), params, pre, body, extra_defs=PRED_SRC)
     return Obl('kernel[%s,%s,lens=%s]' % (policy, DN[dlm], '+'.join(map(str, lens))), src, timeout=timeout,
                meta={'function': 'csv_utils.%s -> smart_split' % q, 'bounds': 'every field list with lengths %s%s' % (lens, ' (no CR/LF)' if policy == 'quoted' else '')})
 
@@ -230,14 +234,11 @@ def obligations(tier, seed):
     for dlm, policy in ((',', 'simple'), (' ', 'whitespace'), ('\t', 'simple')):
         for shape in lsh:
             obs.append(_lossy_obl(dlm, policy, shape, 200 if quick else 900))
-    # D. multi-character delimiter under the quoted policies
-    #    complement of known finding F5 (no field needs quoting) must hold; inside the signature a witness obligation reproduces F5
-    def plain(names):
-        return ['%s != 34 and %s != 58' % (n, n) for n in names]
-    obs.append(_pipe_obl('::', 'quoted', [(1, 1)], '\n', 200, extra_pre=plain(['f00_0', 'f01_0']), tag='#noquoting'))
-    obs.append(_pipe_obl('::', 'quoted_rfc', [(2, 1)], '\n', 300, extra_pre=plain(['f00_0', 'f00_1', 'f01_0']) + ['%s != 10 and %s != 13' % (n, n) for n in ('f00_0', 'f00_1', 'f01_0')], tag='#noquoting'))
-    obs.append(_pipe_obl('::', 'quoted', [(2,)], '\n', 200, tag='#single-field'))
-    w = _pipe_obl('::', 'quoted', [(1, 1)], '\n', 120, expect='known', finding='F5', extra_pre=['f00_0 == 34'], tag='#F5-witness')
-    w.twin = None
-    obs.append(w)
+    # D. multi-character delimiter under the quoted policies (broken before the fix recorded in known_findings.json: "fixed: property=C10 ...")
+    for shape in ([[(1, 1)], [(2,)], [(1, 0), (1,)]] if quick else [[(1, 1)], [(2,)], [(1, 0), (1,)], [(2, 1)], [(1, 2)], [(1, 1, 1)], [(3,)], [(2, 2)]]):
+        for pol in ('quoted', 'quoted_rfc'):
+            obs.append(_pipe_obl('::', pol, shape, '\n', 300 if quick else 1200, tag='#multichar'))
+    for lens in ([(1, 1), (2, 1), (3,)] if quick else [(1, 1), (2, 1), (1, 2), (3,), (2, 2), (1, 1, 1), (4,)]):
+        obs.append(_kernel_obl('::', 'quoted', lens, 300 if quick else 1200))
+        obs.append(_kernel_obl(':=)', 'quoted_rfc', lens, 300 if quick else 1200))
     return obs
